@@ -87,3 +87,29 @@ def _execute_with_timeout(self, code, filename, kind, **meta):
     ensures_raises("other_failures_travel_on_unreported", Exception,
                    ghost('stop_patches_calls') == old(ghost('stop_patches_calls'))
                    and ghost('runtime_feedback') == old(ghost('runtime_feedback')))
+
+
+@assumed("pedal.sandbox.timeout:InterruptableThread.raise_exception",
+         "injects the exception into the worker asynchronously; the worker may observe it before this call returns, "
+         "so everything the worker's handler reads must be in place BEFORE the call (the precondition)")
+def raise_exception(self, exception):
+    requires("marked_as_terminated_before_the_exception_is_injected", self.terminated is True)
+    raises_only(Exception)
+
+
+@target("pedal.sandbox.timeout:InterruptableThread.terminate")
+def terminate(self):
+    requires(instance_of(self, InterruptableThread))
+    modifies(self.exc_info, self.terminated)
+    raises_only(Exception)
+    on_any_exit("worker_is_marked", self.terminated is True)
+
+
+@target("pedal.sandbox.timeout:current_thread_was_terminated", captures=['threading'])
+def current_thread_was_terminated_():
+    requires(threading is not None and is_obj(threading) and is_obj(ghost_val('current_thread_value')))
+    abstract("threading.current_thread", raises=None, label="current_thread",
+             ensures=[eqv(result, ghost_val('current_thread_value'))])
+    raises_nothing()
+    ensures("reads_the_mark_of_the_calling_thread", truthy(result) == (
+        has_attr(ghost_val('current_thread_value'), 'terminated') and truthy(ghost_val('current_thread_value').terminated)))
